@@ -123,6 +123,18 @@ SCHEMA_TABLED = {
 }
 
 
+def _refusal_literals(func: ast.AST):
+    """ [(raise / `return None` statement, literals on every path to it - raw and with locals resolved)] """
+    from ..flow import facts_nnf, nnf_literals, path_facts, resolved_facts
+    cfg = CFG(func)
+    out = []
+    for node in walk_local(func):
+        if isinstance(node, ast.Raise) or (isinstance(node, ast.Return) and (node.value is None or txt(node.value) == "None")):
+            lits = nnf_literals(facts_nnf(path_facts(cfg, node))) | nnf_literals(resolved_facts(cfg, node))
+            out.append((node, lits))
+    return out
+
+
 def r11_2(ctx: Ctx) -> None:
     every = module_results_classes(ctx)
     classes = [c for c in every if c.module.rel in ANCHORED]
@@ -149,12 +161,12 @@ def r11_2(ctx: Ctx) -> None:
         param = [a.arg for a in fj.args.args if a.arg not in ("cls", "self")][0]
         # schema guard
         found = False
+        refusals = _refusal_literals(fj)
+        for node, lits in refusals:
+            for text, truth in lits:
+                if "schema_version" in text and (f"{param}[" in text or f"{param}.get(" in text) and " == " in text and not truth:
+                    found = True
         for node in walk_local(fj):
-            if isinstance(node, ast.If) and "schema_version" in txt(node.test) and (
-                    f"{param}[" in txt(node.test) or f"{param}.get(" in txt(node.test)):
-                refuses = any(isinstance(s, ast.Raise) or (isinstance(s, ast.Return) and txt(s.value) == "None") for s in node.body)
-                differs = any(isinstance(n, ast.Compare) and isinstance(n.ops[0], ast.NotEq) for n in ast.walk(node.test))
-                found = found or (refuses and differs)
             if isinstance(node, ast.Assert) and "schema_version" in txt(node.test) and "==" in txt(node.test):
                 found = True
         if not found and info.name in SCHEMA_TABLED:
@@ -166,14 +178,14 @@ def r11_2(ctx: Ctx) -> None:
                    "results stored under another schema version are refused (raise) or discarded (return None)", form="")
         # record guard
         found = False
-        for node in walk_local(fj):
-            if isinstance(node, (ast.If, ast.Assert)) and "record.id" in txt(node.test) and (
-                    f"{param}[" in txt(node.test) or f"{param}.get(" in txt(node.test)):
-                if isinstance(node, ast.Assert):
+        for node, lits in refusals:
+            for text, truth in lits:
+                if "record.id" in text and (f"{param}[" in text or f"{param}.get(" in text) and " == " in text and not truth:
                     found = True
-                else:
-                    found = found or any(isinstance(s, ast.Raise) or (isinstance(s, ast.Return) and txt(s.value) == "None")
-                                         for s in node.body)
+        for node in walk_local(fj):
+            if isinstance(node, ast.Assert) and "record.id" in txt(node.test) and (
+                    f"{param}[" in txt(node.test) or f"{param}.get(" in txt(node.test)):
+                found = True
         form = "in from_json"
         if not ctx.repo.is_subclass(info, "ModuleResults"):
             continue   # nested container: the record guard belongs to the enclosing module results
@@ -189,7 +201,7 @@ def r11_2(ctx: Ctx) -> None:
 
 
 def r11_3(ctx: Ctx) -> None:
-    func = ctx.fn(HD, "regenerate_previous_results")
+    func = ctx.fn(HD, "regenerate_previous_results", inline=True)
     cfg = CFG(func)
     fjs = [c for c in calls(func) if last_attr(c) == "from_json"]
     ok = len(fjs) == 1 and cfg.postdominates(cfg.n(fjs[0]), cfg.entry) is False and \
@@ -201,16 +213,18 @@ def r11_3(ctx: Ctx) -> None:
     for node in walk_local(func):
         if not isinstance(node, ast.If):
             continue
-        test = txt(node.test)
-        if "options" not in test or "regenerated" not in test:
+        from ..flow import inline_reaching
+        stored = {txt(t) for n in walk_local(func) if isinstance(n, ast.Assign) and n.value in fjs for t in n.targets}
+        test = txt(inline_reaching(cfg, node, node.test, keep=stored))
+        if "options" not in test or not any(name in test for name in stored):
             continue
         settings += 1
         body = node.body
         raises = any(isinstance(s, ast.Raise) for s in body)
         returns_none = any(isinstance(s, ast.Return) and txt(s.value) == "None" for s in body)
         warns = any(isinstance(s, ast.Expr) and "logging.warning" in txt(s) for s in body)
-        substitutes = any(isinstance(s, ast.Assign) and txt(s.targets[0]).startswith("regenerated.") and "options." in txt(s.value)
-                          for s in body)
+        substitutes = any(isinstance(s, ast.Assign) and txt(s.targets[0]).startswith(tuple(f"{name}." for name in stored))
+                          and "options." in txt(s.value) for s in body)
         ok = (raises or returns_none or warns) and not substitutes
         ctx.ob("R11.3", HD, node, "regenerate_previous_results", f"setting test {test[:70]}", ok,
                "a stored setting that differs from the current option makes reuse fail, be discarded, or keeps the stored "
@@ -219,8 +233,10 @@ def r11_3(ctx: Ctx) -> None:
     if settings < 4:
         raise AnalysisError(f"regenerate_previous_results: expected at least 4 setting comparisons, found {settings}")
     hd_from = ctx.fn(HD, "HMMDetectionResults.from_json")
-    ok = any(isinstance(n, ast.If) and txt(n.test) == "rule_results is None" and any(isinstance(s, ast.Raise) for s in n.body)
-             for n in walk_local(hd_from))
+    nested = {txt(t) for n in walk_local(hd_from) if isinstance(n, ast.Assign) and isinstance(n.value, ast.Call)
+              and last_attr(n.value) == "from_json" for t in n.targets}
+    ok = any(isinstance(node, ast.Raise) and any((f"{name} is None", True) in lits for name in nested)
+             for node, lits in _refusal_literals(hd_from))
     ctx.ob("R11.3", HD, hd_from, "HMMDetectionResults.from_json", "nested refusal propagates", ok,
            "when the nested rule results refuse their schema version the whole result is refused", form="")
     # main.run_module: regenerate first, run with the regenerated results
